@@ -156,6 +156,12 @@ class SymFile:
             return None
         if inv_is(self, S):
             if not self.it.path.entails_any(after == S(iv + 1)):
+                cm = self.it.path.refute(after == S(iv + 1))
+                if cm is not None:
+                    from .core import ContractRefuted
+
+                    raise ContractRefuted("the chunk loop leaves the contract's file position (one request per chunk of "
+                                          "min(records_per_chunk, lines) records, chunk j at 720 + j * records_per_chunk * record_length)", cm)
                 raise Unsupported("file position invariant is not preserved by the loop body")
             self.it.path.__dict__.setdefault("notes", []).append("file position invariant verified (init, preservation)")
             self.it.path.__dict__.setdefault("position_folds", []).append(
